@@ -14,7 +14,8 @@
  *     flag, checksum errors under -f, I/O errors, ...);
  *  R  a write to the device (or the read-write ext2fs_open2) is reached only if -f was given or NOTHING was wrong: header
  *     crc matches, every key block read so far had the right magic and crc, every data block's crc matched its key,
- *     check_filesystem accepted the superblock, and no read failed;  the undo file that is replayed is never opened
+ *     check_filesystem accepted the superblock, and no read failed — all of that established BEFORE the first write (an I/O
+ *     error during the replay itself does not stop the replay, it is reported through F);  the undo file that is replayed is never opened
  *     read-write and never written;  once the first device write has happened main does not bail out (no exit());
  *  K  every key loaded is replayed: device writes = number of keys whose data could be read (unless -n);
  *  F  after a normal return the filesystem was re-opened read-write for the "needs fsck" mark iff not -n and (-f, or a
@@ -25,35 +26,220 @@
 /* VERIF-UNIT
 {
  "name": "e2undo_main",
- "defines": ["NO_INLINE_FUNCS", "CFG_TDB=1024", "CFG_BS=1024"],
- "props": ["C12"], "level": "P", "tier": "wip", "harness": "h_e2undo",
- "replace": ["check_filesystem"],
- "includes": ["misc"],
- "unwind": 10,
- "unwind_reason": "getopt loop: the stub delivers at most 3 options; memcmp over the 8 magic bytes; key loops: at most 2 keys in one key block (assumed, see assumes); DFCC library loops",
- "functions": ["misc/e2undo.c:main"],
- "assumes": ["at most 3 command-line options, each one of -f -h -n -o -v -z or an unknown one; -z with a non-empty file name",
-   "undo file header: block_size 1024 and fs_block_size 1024 (literals: lblk += size/blocksize is a symbolic division otherwise), num_keys <= 2 (loops are unwound: the protocol flags the obligations depend on do not change with the iteration count); everything else in the header, the key block, the results of every callee arbitrary",
-   "with -f the key block itself can be read (a failing key-block read under -f makes num_keys = i - 1 = SIZE_MAX: unit e2undo_main_keyread, findings/C12_e2undo_force_keyread)",
-   "check_filesystem by contract (arbitrary verdict, no write); qsort leaves the key array as it is (one of the permutations)",
-   "the key array is a 64-byte object whatever num_keys <= 2 says (so an overrun inside these 64 bytes would go unnoticed)",
-   "the 512 KiB data buffer is represented by a 16-byte object: main only passes it to read/crc32c/write, which are stubs that ignore its content",
-   "crc32c is a stub returning arbitrary values; the monitor compares them with the stored checksums itself"],
- "backend": "cadical", "native": false, "timeout": 600
+ "defines": [
+  "NO_INLINE_FUNCS",
+  "CFG_TDB=1024",
+  "CFG_BS=1024",
+  "CFG_NKEYS=2"
+ ],
+ "props": [
+  "C12"
+ ],
+ "level": "P",
+ "tier": "wip",
+ "harness": "h_e2undo",
+ "replace": [
+  "check_filesystem"
+ ],
+ "includes": [
+  "misc"
+ ],
+ "unwind": 6,
+ "unwindset": {
+  "e2undo_main.0": 5,
+  "e2undo_main.1": 3,
+  "e2undo_main.2": 2,
+  "e2undo_main.3": 3,
+  "memcmp.0": 9
+ },
+ "cbmc_flags": [
+  "--object-bits",
+  "9"
+ ],
+ "unwind_reason": "getopt loop: the stub delivers at most 3 options; memcmp over the 8 magic bytes; key loops: num_keys is a literal <= 2, one key block; DFCC library loops",
+ "functions": [
+  "misc/e2undo.c:main"
+ ],
+ "assumes": [
+  "at most 3 command-line options, each one of -f -h -n -o -v -z or an unknown one; -z with a non-empty file name",
+  "undo file header: block_size 1024 and fs_block_size 1024 (literals: lblk += size/blocksize is a symbolic division otherwise), num_keys = 2 (literal; the loops are unwound; units e2undo_main / _k1 / _k0 cover 2, 1, 0 keys: the protocol flags the obligations depend on do not change with the iteration count); everything else in the header, the key block, the results of every callee arbitrary",
+  "with -f the key block itself can be read (a failing key-block read under -f makes num_keys = i - 1 = SIZE_MAX: unit e2undo_main_keyread, findings/C12_e2undo_force_keyread)",
+  "the com_err()/fprintf() diagnostics of e2undo.c are compiled out by macros (they have no effect on the protocol)",
+  "check_filesystem by contract (arbitrary verdict, no write); qsort leaves the key array as it is (one of the permutations)",
+  "the 512 KiB data buffer is represented by a 16-byte object: main only passes it to read/crc32c/write, which are stubs that ignore its content",
+  "header and key block content: the uninitialised local header struct / the freshly allocated key buffer (arbitrary), each read once",
+  "crc32c is a stub returning arbitrary values; the monitor compares them with the stored checksums itself",
+  "-n is judged on the device and on the undo file that is replayed; with -n -z the NEW undo file named by -z is still created by the undo manager (not modelled here)"
+ ],
+ "backend": "minisat",
+ "no_cross_check": true,
+ "native": false,
+ "timeout": 600
+}
+*/
+/* VERIF-UNIT
+{
+ "name": "e2undo_main_k1",
+ "defines": [
+  "NO_INLINE_FUNCS",
+  "CFG_TDB=1024",
+  "CFG_BS=1024",
+  "CFG_NKEYS=1"
+ ],
+ "props": [
+  "C12"
+ ],
+ "level": "P",
+ "tier": "wip",
+ "harness": "h_e2undo",
+ "replace": [
+  "check_filesystem"
+ ],
+ "includes": [
+  "misc"
+ ],
+ "unwind": 6,
+ "unwindset": {
+  "e2undo_main.0": 5,
+  "e2undo_main.1": 3,
+  "e2undo_main.2": 2,
+  "e2undo_main.3": 3,
+  "memcmp.0": 9
+ },
+ "cbmc_flags": [
+  "--object-bits",
+  "9"
+ ],
+ "unwind_reason": "getopt loop: the stub delivers at most 3 options; memcmp over the 8 magic bytes; key loops: num_keys is a literal <= 2, one key block; DFCC library loops",
+ "functions": [
+  "misc/e2undo.c:main"
+ ],
+ "assumes": [
+  "at most 3 command-line options, each one of -f -h -n -o -v -z or an unknown one; -z with a non-empty file name",
+  "undo file header: block_size 1024 and fs_block_size 1024 (literals: lblk += size/blocksize is a symbolic division otherwise), num_keys = 1 (literal; the loops are unwound; units e2undo_main / _k1 / _k0 cover 2, 1, 0 keys: the protocol flags the obligations depend on do not change with the iteration count); everything else in the header, the key block, the results of every callee arbitrary",
+  "with -f the key block itself can be read (a failing key-block read under -f makes num_keys = i - 1 = SIZE_MAX: unit e2undo_main_keyread, findings/C12_e2undo_force_keyread)",
+  "the com_err()/fprintf() diagnostics of e2undo.c are compiled out by macros (they have no effect on the protocol)",
+  "check_filesystem by contract (arbitrary verdict, no write); qsort leaves the key array as it is (one of the permutations)",
+  "the 512 KiB data buffer is represented by a 16-byte object: main only passes it to read/crc32c/write, which are stubs that ignore its content",
+  "header and key block content: the uninitialised local header struct / the freshly allocated key buffer (arbitrary), each read once",
+  "crc32c is a stub returning arbitrary values; the monitor compares them with the stored checksums itself",
+  "-n is judged on the device and on the undo file that is replayed; with -n -z the NEW undo file named by -z is still created by the undo manager (not modelled here)"
+ ],
+ "backend": "minisat",
+ "no_cross_check": true,
+ "native": false,
+ "timeout": 600
+}
+*/
+/* VERIF-UNIT
+{
+ "name": "e2undo_main_k0",
+ "defines": [
+  "NO_INLINE_FUNCS",
+  "CFG_TDB=1024",
+  "CFG_BS=1024",
+  "CFG_NKEYS=0"
+ ],
+ "props": [
+  "C12"
+ ],
+ "level": "P",
+ "tier": "wip",
+ "harness": "h_e2undo",
+ "replace": [
+  "check_filesystem"
+ ],
+ "includes": [
+  "misc"
+ ],
+ "unwind": 6,
+ "unwindset": {
+  "e2undo_main.0": 5,
+  "e2undo_main.1": 3,
+  "e2undo_main.2": 2,
+  "e2undo_main.3": 3,
+  "memcmp.0": 9
+ },
+ "cbmc_flags": [
+  "--object-bits",
+  "9"
+ ],
+ "unwind_reason": "getopt loop: the stub delivers at most 3 options; memcmp over the 8 magic bytes; key loops: num_keys is a literal <= 2, one key block; DFCC library loops",
+ "functions": [
+  "misc/e2undo.c:main"
+ ],
+ "assumes": [
+  "at most 3 command-line options, each one of -f -h -n -o -v -z or an unknown one; -z with a non-empty file name",
+  "undo file header: block_size 1024 and fs_block_size 1024 (literals: lblk += size/blocksize is a symbolic division otherwise), num_keys = 0 (literal; the loops are unwound; units e2undo_main / _k1 / _k0 cover 2, 1, 0 keys: the protocol flags the obligations depend on do not change with the iteration count); everything else in the header, the key block, the results of every callee arbitrary",
+  "with -f the key block itself can be read (a failing key-block read under -f makes num_keys = i - 1 = SIZE_MAX: unit e2undo_main_keyread, findings/C12_e2undo_force_keyread)",
+  "the com_err()/fprintf() diagnostics of e2undo.c are compiled out by macros (they have no effect on the protocol)",
+  "check_filesystem by contract (arbitrary verdict, no write); qsort leaves the key array as it is (one of the permutations)",
+  "the 512 KiB data buffer is represented by a 16-byte object: main only passes it to read/crc32c/write, which are stubs that ignore its content",
+  "header and key block content: the uninitialised local header struct / the freshly allocated key buffer (arbitrary), each read once",
+  "crc32c is a stub returning arbitrary values; the monitor compares them with the stored checksums itself",
+  "-n is judged on the device and on the undo file that is replayed; with -n -z the NEW undo file named by -z is still created by the undo manager (not modelled here)"
+ ],
+ "backend": "minisat",
+ "no_cross_check": true,
+ "native": false,
+ "timeout": 600
 }
 */
 /* VERIF-UNIT
 {
  "name": "e2undo_main_keyread",
- "defines": ["NO_INLINE_FUNCS", "CFG_TDB=1024", "CFG_BS=1024", "KEYREAD_MAY_FAIL=1"],
- "props": ["C12", "C06"], "level": "P", "tier": "obs", "harness": "h_e2undo",
- "replace": ["check_filesystem"],
- "includes": ["misc"],
- "unwind": 10,
- "unwind_reason": "as e2undo_main",
- "functions": ["misc/e2undo.c:main"],
- "assumes": ["as e2undo_main, but the read of a key block may fail under -f: FAILS (unwinding assertion / out-of-bounds key access in the replay loop): undo_ctx.num_keys = i - 1 underflows for the first key block, findings/C12_e2undo_force_keyread"],
- "backend": "cadical", "native": false, "timeout": 600
+ "defines": [
+  "NO_INLINE_FUNCS",
+  "CFG_TDB=1024",
+  "CFG_BS=1024",
+  "CFG_NKEYS=2",
+  "KEYREAD_MAY_FAIL=1"
+ ],
+ "props": [
+  "C12",
+  "C06"
+ ],
+ "level": "P",
+ "tier": "obs",
+ "harness": "h_e2undo",
+ "replace": [
+  "check_filesystem"
+ ],
+ "includes": [
+  "misc"
+ ],
+ "unwind": 6,
+ "unwindset": {
+  "e2undo_main.0": 5,
+  "e2undo_main.1": 3,
+  "e2undo_main.2": 2,
+  "e2undo_main.3": 3,
+  "memcmp.0": 9
+ },
+ "cbmc_flags": [
+  "--object-bits",
+  "9"
+ ],
+ "unwind_reason": "getopt loop: the stub delivers at most 3 options; memcmp over the 8 magic bytes; key loops: num_keys is a literal <= 2, one key block; DFCC library loops",
+ "functions": [
+  "misc/e2undo.c:main"
+ ],
+ "assumes": [
+  "at most 3 command-line options, each one of -f -h -n -o -v -z or an unknown one; -z with a non-empty file name",
+  "undo file header: block_size 1024 and fs_block_size 1024 (literals: lblk += size/blocksize is a symbolic division otherwise), num_keys = 2 (literal; the loops are unwound; units e2undo_main / _k1 / _k0 cover 2, 1, 0 keys: the protocol flags the obligations depend on do not change with the iteration count); everything else in the header, the key block, the results of every callee arbitrary",
+  "with -f the key block itself can be read (a failing key-block read under -f makes num_keys = i - 1 = SIZE_MAX: unit e2undo_main_keyread, findings/C12_e2undo_force_keyread)",
+  "the com_err()/fprintf() diagnostics of e2undo.c are compiled out by macros (they have no effect on the protocol)",
+  "check_filesystem by contract (arbitrary verdict, no write); qsort leaves the key array as it is (one of the permutations)",
+  "the 512 KiB data buffer is represented by a 16-byte object: main only passes it to read/crc32c/write, which are stubs that ignore its content",
+  "header and key block content: the uninitialised local header struct / the freshly allocated key buffer (arbitrary), each read once",
+  "crc32c is a stub returning arbitrary values; the monitor compares them with the stored checksums itself",
+  "-n is judged on the device and on the undo file that is replayed; with -n -z the NEW undo file named by -z is still created by the undo manager (not modelled here)",
+  "OBSERVATION: without the assumption about key-block reads under -f the unit FAILS (unwinding assertion of the replay loop / key access outside the key array): undo_ctx.num_keys = i - 1 underflows for the first key block; findings/C12_e2undo_force_keyread"
+ ],
+ "backend": "minisat",
+ "no_cross_check": true,
+ "native": false,
+ "timeout": 600
 }
 */
 #include "verif.h"
@@ -61,6 +247,9 @@
 #ifndef CFG_TDB
 #define CFG_TDB 1024
 #define CFG_BS 1024
+#endif
+#ifndef CFG_NKEYS
+#define CFG_NKEYS 2
 #endif
 
 struct in_e2undo {
@@ -79,9 +268,17 @@ long nondet_long(void);
 unsigned int nondet_uint(void);
 #endif
 
+/* diagnostics only: the variadic com_err()/fprintf() calls (about 50 of them) are compiled out — under DFCC each costs
+ * tens of thousands of clauses for its argument array; printf stays (CBMC built-in) */
+#include <stdio.h>
+#include "et/com_err.h"
+#define com_err(...) ((void)0)
+#define fprintf(...) ((void)0)
 #define main e2undo_main
 #include "misc/e2undo.c"
 #undef main
+#undef com_err
+#undef fprintf
 
 struct e2undo_mon {
 	/* options as delivered by the getopt stub */
@@ -94,12 +291,13 @@ struct e2undo_mon {
 	int hdr_seen, hdr_bad, incomplete;
 	int sb_checked, sb_bad;
 	int key_bad, blk_bad, io_err;
-	unsigned int kb_reads, data_crcs, keys_in_kb;
+	unsigned int kb_reads, data_crcs, data_reads, cur_slot;
 	unsigned int kb_magic, kb_crc;	/* of the key block delivered last */
 	unsigned int readable_keys;	/* data blocks the replay loop could read */
 	/* effects */
 	unsigned int dev_writes, undo_writes, open2_calls, dirty_marks, fs_closes, ch_closes;
 	int replay_started;
+	int wrong_before_replay;	/* ANYTHING_WRONG when the verification pass was over */
 	int viol;
 	const void *keyb_buf;		/* the key-block buffer main allocated */
 	const void *data_buf;		/* the data buffer main allocated */
@@ -140,7 +338,6 @@ char *textdomain(const char *domainname) { return 0; }
 char *gettext(const char *msgid) { return (char *)msgid; }
 char *(*set_com_err_gettext(char *(*new_proc)(const char *)))(const char *) { return 0; }
 errcode_t add_error_table(const struct error_table *et) { return 0; }
-void com_err(const char *whoami, errcode_t code, const char *fmt, ...) { }
 int strcmp(const char *a, const char *b) { return IN.same_file ? 0 : 1; }
 unsigned long long strtoull(const char *nptr, char **endptr, int base)
 {
@@ -152,9 +349,7 @@ int snprintf(char *str, size_t size, const char *format, ...)
 {
 	int r = nondet_int();
 	ASSUME(r >= 0);
-	if (size)
-		str[0] = 'o';
-	return r;
+	return r;	/* the string goes to io_channel_set_options only, a stub */
 }
 int getopt(int argc, char *const argv[], const char *optstring)
 {
@@ -189,11 +384,7 @@ errcode_t ext2fs_get_mem(unsigned long size, void *ptr)
 		pp = malloc(CFG_TDB);
 		M.keyb_buf = pp;
 	} else {
-		/* the key array, 32 bytes per key, at most 2 keys: a literal size (an object of symbolic size makes
-		 * every key access a byte operation on a variable-length array: out of memory) */
-		if (size > 64)
-			M.viol = 1;
-		pp = malloc(64);
+		pp = malloc(size);	/* the key array: 32 bytes per key, num_keys is a literal */
 	}
 	*(void **)ptr = pp;
 	return pp ? 0 : EXT2_ET_NO_MEMORY;
@@ -244,8 +435,11 @@ static errcode_t st_open(const char *name, int flags, io_channel *channel)
 static errcode_t st_set_blksize(io_channel ch, int blksize)
 {
 	ch->block_size = blksize;
-	if (ch == &DEV_CH)
-		M.replay_started = 1;	/* the only set_blksize of the device in main: just before the replay loop */
+	if (ch == &DEV_CH) {
+		/* the only set_blksize of the device in main: just before the replay loop */
+		M.replay_started = 1;
+		M.wrong_before_replay = ANYTHING_WRONG;
+	}
 	return 0;
 }
 static errcode_t st_close(io_channel ch)
@@ -263,8 +457,8 @@ __u32 ext2fs_crc32c_le(__u32 crc, unsigned char const *p, size_t len)
 		if (M.kb_magic != KEYBLOCK_MAGIC || c != M.kb_crc)
 			M.key_bad = 1;
 	} else {
-		/* data block of key number data_crcs of the current key block */
-		if (M.data_crcs < 2 && c != ((const struct undo_key_block *)M.keyb_buf)->keys[M.data_crcs].blk_crc)
+		/* the data block read last in the verification pass: key number cur_slot of the key block */
+		if (M.cur_slot < CFG_NKEYS && c != ((const struct undo_key_block *)M.keyb_buf)->keys[M.cur_slot].blk_crc)
 			M.blk_bad = 1;
 		M.data_crcs++;
 	}
@@ -286,12 +480,10 @@ errcode_t io_channel_read_blk64(io_channel ch, unsigned long long block, int cou
 			M.viol = 1;
 		M.hdr_seen = 1;
 		M.hdr_buf = buf;
-#ifndef VERIF_NATIVE
-		__CPROVER_havoc_slice(buf, sizeof(struct undo_header));
-#endif
+		/* content: main's header struct is an uninitialised local, i.e. already arbitrary; read once */
 		h->block_size = CFG_TDB;
 		h->fs_block_size = CFG_BS;
-		ASSUME(h->num_keys <= 2);
+		h->num_keys = CFG_NKEYS;	/* literal: the size of the key array and the loop bounds become constants */
 		M.incomplete = !(h->state & E2UNDO_STATE_FINISHED);
 		return r;
 	}
@@ -301,9 +493,9 @@ errcode_t io_channel_read_blk64(io_channel ch, unsigned long long block, int cou
 			M.viol = 1;
 		M.kb_reads++;
 		M.data_crcs = 0;
-#ifndef VERIF_NATIVE
-		__CPROVER_havoc_slice(buf, CFG_TDB);
-#endif
+		/* content: the freshly allocated key buffer is arbitrary; with num_keys <= 2 it is read exactly once */
+		if (M.kb_reads > 1)
+			M.viol = 1;
 		M.kb_magic = ((struct undo_key_block *)buf)->magic;
 		M.kb_crc = ((struct undo_key_block *)buf)->crc;
 #ifndef KEYREAD_MAY_FAIL
@@ -314,8 +506,10 @@ errcode_t io_channel_read_blk64(io_channel ch, unsigned long long block, int cou
 		return r;
 	}
 	/* a data block (content irrelevant: crc32c is a stub) */
-	if (buf != M.data_buf || count >= 0)
+	if (buf != M.data_buf)
 		M.viol = 1;
+	if (!M.replay_started)
+		M.cur_slot = M.data_reads++;
 	if (r)
 		M.io_err = 1;
 	else if (M.replay_started)
@@ -327,7 +521,8 @@ errcode_t io_channel_write_blk64(io_channel ch, unsigned long long block, int co
 	long r = nondet_long();
 	CHECK(!M.opt_n, "-n: no write reaches a channel");
 	CHECK(ch == &DEV_CH, "only the device is written, never the undo file that is replayed");
-	CHECK(M.opt_f || !ANYTHING_WRONG, "a write is reached only if nothing was wrong with the undo file, or -f");
+	CHECK(M.replay_started, "no write before the whole undo file has been verified");
+	CHECK(M.opt_f || !M.wrong_before_replay, "a write is reached only if the verification pass found nothing wrong with the undo file, or -f");
 	CHECK(M.sb_checked || M.opt_f, "a write is reached only after check_filesystem, or -f");
 	CHECK(M.dev_flags & IO_FLAG_RW, "the device was opened read-write");
 	M.dev_writes++;
@@ -384,13 +579,22 @@ void h_e2undo(void)
 	UNDO_CH.manager = &UNIX_MGR;
 	DEV_CH.manager = &UNIX_MGR;	/* close/set_blksize go through the same stubs for both managers */
 	UNDO_CH.block_size = DEV_CH.block_size = 1024;
-	ASSUME(IN.argc >= 1 && IN.argc <= 7 && IN.optind_end >= 1 && IN.optind_end <= 7);
-	/* the two positional arguments, if present */
-	if (IN.optind_end + 1 < 7) {
-		argv[IN.optind_end] = S_UNDO;
-		argv[IN.optind_end + 1] = S_DEV;
-	}
+	/* DFCC havocs every static object: give the strings and the globals of libc / e2undo.c their start values */
+	S_PROG[0] = 'e'; S_PROG[1] = 0;
+	S_UNDO[0] = 'u'; S_UNDO[1] = 0;
+	S_DEV[0] = 'd'; S_DEV[1] = 0;
+	S_ARG[0] = 'a'; S_ARG[1] = 0;
+	S_END[0] = S_END[1] = 0;
+	unix_io_manager = &UNIX_MGR;
+	undo_io_manager = &UNDO_MGR;
+	undo_file = 0;
+	prg_name = 0;
+	optarg = 0;
 	optind = 1;
+	ASSUME(IN.argc >= 1 && IN.argc <= 7 && IN.optind_end >= 1 && IN.optind_end <= 5);
+	/* the two positional arguments */
+	argv[IN.optind_end] = S_UNDO;
+	argv[IN.optind_end + 1] = S_DEV;
 
 	rc = e2undo_main(IN.argc, argv);
 
@@ -405,10 +609,14 @@ void h_e2undo(void)
 	REACH("returned");
 	if (M.opt_n) REACH("dry-run");
 	if (M.opt_n && M.incomplete) REACH("dry-run-incomplete");
-	if (M.opt_n && M.opt_f && M.blk_bad) REACH("dry-run-forced-csum-error");
+#if CFG_NKEYS >= 2
 	if (!M.opt_n && M.dev_writes == 2) REACH("two-keys-replayed");
+#endif
+#if CFG_NKEYS >= 1
+	if (M.opt_n && M.opt_f && M.blk_bad) REACH("dry-run-forced-csum-error");
 	if (!M.opt_n && !M.opt_f && M.dev_writes >= 1 && !M.incomplete) REACH("clean-replay");
 	if (M.opt_f && ANYTHING_WRONG && M.dev_writes >= 1) REACH("forced-replay");
+#endif
 	if (M.fs_closes == 1) REACH("marked-needs-fsck");
 	REACH("end");
 }
